@@ -91,6 +91,16 @@ PoolC02merge(hostAxes) ==
                    \cup {Bin(op, y, x) : op \in {"and", "or"}, x \in MergeOperands, y \in ContextOperands}
                    \cup {Bin("=", x, Lit("1")) : x \in MergeOperands}}
 
+\* predicates that are two-step paths over the axes the builder rewrites together (descendant over
+\* descendant, '//' folding): the first match abandons the walk half-way
+PredPaths2(axes, tests) ==
+    {Path(FALSE, <<Step(a1, t1, <<>>), Step(a2, t2, <<>>)>>) : a1 \in axes, a2 \in axes, t1 \in tests, t2 \in tests}
+PoolC02desc2(hostAxes) ==
+    UNION {HostForms(Step(hax, NTAny, <<p>>)) : hax \in hostAxes,
+             p \in PredPaths2({"descendant", "descendant-or-self", "child", "following-sibling"}, TestsA)
+                   \cup {Call("not", <<x>>) : x \in PredPaths2({"descendant", "descendant-or-self", "child"}, TestsA)}
+                   \cup {Bin("=", x, Lit("1")) : x \in PredPaths2({"descendant", "descendant-or-self", "child"}, TestsA)}}
+
 \* parenthesised path followed by a boolean predicate:  (path)[p]
 PoolC02paren(paths, A) == {Filter(pa, <<p>>, <<>>) : pa \in paths, p \in A}
 \* ... followed by several predicates, and by further steps
@@ -141,7 +151,9 @@ NSOperands ==
     {Rel1("child", NTName(n)) : n \in {"b", "c", "d", "zz"}} \cup {Rel1("child", NTAny), Rel1("attribute", NTName("a")),
      Rel1("attribute", NTAny),
      Path(FALSE, <<Step("child", NTName("e"), <<>>), Step("child", NTAny, <<>>)>>),
-     Path(FALSE, <<Step("child", NTName("b"), <<>>), Step("child", NTText, <<>>)>>)}
+     Path(FALSE, <<Step("child", NTName("b"), <<>>), Step("child", NTText, <<>>)>>),
+     Path(FALSE, <<Step("child", NTName("e"), <<>>), Step("child", NTAny, <<N(1)>>)>>),
+     Path(FALSE, <<Step("child", NTAny, <<>>), Step("child", NTAny, <<LastFn>>)>>)}
 BoolOperands == {Call("true", <<>>), Call("false", <<>>)}
 
 PoolC07cmpSets ==
@@ -185,6 +197,10 @@ NumLeavesDoc ==
                                           Lit("0x10"), Lit("1 2"), Lit("."), Lit("5."), Lit(".5"), Lit("-"), Lit("--1")}}
     \cup {Call("number", <<>>)}
     \cup {Call("string-length", <<p>>) : p \in {Rel1("child", NTName("c")), Lit("abc")}}
+    \* flat paths with a positional / function-valued predicate on a non-first step (the builder's merge rewrite)
+    \cup {Call("count", <<Path(FALSE, <<Step("child", NTAny, <<>>), Step("child", NTAny, <<p>>)>>)>>) :
+             p \in {N(1), LastFn, Call("not", <<Rel1("child", NTAny)>>)}}
+    \cup {Call("count", <<Path(FALSE, <<Step("child", NTName("e"), <<>>), Step("child", NTName("b"), <<N(1)>>)>>)>>)}
 NumUnary(X) == {Neg(x) : x \in X} \cup {Call("floor", <<x>>) : x \in X} \cup {Call("ceiling", <<x>>) : x \in X}
 NumBinary(X, Y) == {Bin(op, x, y) : op \in ArithOps, x \in X, y \in Y}
 
